@@ -29,6 +29,8 @@ Eval(r) == LET P == Pos(r)  C == Cell(r)  per == r.periodic
                                          rdf |-> RdfCounts(P, C, per, [i \in 1..Len(r.rdfpairs) |-> <<r.rdfpairs[i][1], r.rdfpairs[i][2]>>], 0, 10),
                                          drid |-> [m \in 1..Len(selq) |-> DridD2(P, bonds, sel, selq[m])],
                                          dipole |-> DipoleNum([i \in 1..Len(r.charges) |-> r.charges[i]], P),
+                                         dipole_p_ok |-> (per /\ DipolePeriodicOK(Atoms, P, C)),
+                                         dipole_p |-> IF per /\ DipolePeriodicOK(Atoms, P, C) THEN DipolePeriodic([i \in 1..Len(r.charges) |-> r.charges[i]], Atoms, P, C) ELSE <<0, 0, 0>>,
                                          vol |-> Volume(C), ok |-> ok])>>)
 Init == k = 1
 Next == k <= Len(Recs) /\ Eval(Recs[k]) /\ k' = k + 1
